@@ -80,6 +80,7 @@ impl Stats {
         self.fault("injected_top_level", s.injected_top_level);
         self.fault("pool_resize_between_ops", s.width_changes);
         self.fault("scope_spawn_reorder", s.spawn_reorder);
+        self.fault("called_from_inside_pool", s.started_inside_pool);
         if env.width == 1 {
             self.fault("pool_width_1", 1);
         }
